@@ -12,7 +12,7 @@ Definition ovf (f : float) (m : Z) : Z := match overlap_count_float f m with Som
 '''
 
 SPLIT_METHODS = ['top_vector_agop_on_subset', 'random_agop_on_subset', 'top_pc_agop_on_subset', 'random_pca',
-                 'linear', 'fixed_vector', 'pca', 'rf_criterion', 'random']
+                 'linear', 'fixed_vector', 'pca', 'rf_criterion', 'random', 'random_global_agop']
 DATA_KINDS = ['random', 'integer', 'duplicated', 'constant', 'constcol', 'lowrank']
 
 
@@ -169,14 +169,16 @@ def run(ck):
             n_trees = int(rng.choice([2, 3])); f = 0.0
             X = xr.make_X(kind, n, d, rng); y = xr.make_y(task, X, rng)
         xr.seed_all(int(rng.integers(0, 2 ** 31)))
-        model = xr.xRFM(rfm_params=xr.default_rfm_params(iters=0, reg=1e-2), max_leaf_size=L, number_of_splits=quota,
+        # tree iterations: every tree is rebuilt n_tree_iters times with projections drawn from the previous build's averaged feature matrix
+        tree_iters = int(rng.choice([1, 2])) if method == 'random_global_agop' else 0
+        model = xr.xRFM(rfm_params=xr.default_rfm_params(iters=(1 if tree_iters else 0), reg=1e-2), max_leaf_size=L, number_of_splits=quota,
                         split_method=method, overlap_fraction=f, verbose=False, use_temperature_tuning=False,
-                        n_trees=n_trees, refill_size=int(rng.integers(1, 12)), **kw)
+                        n_trees=n_trees, n_tree_iters=tree_iters, refill_size=int(rng.integers(1, 12)), **kw)
         Lm = int(model.max_leaf_size)
         yt = torch.tensor(y)
         rec = xr.fit_recorded(model, torch.tensor(X), yt, torch.tensor(Xv), torch.tensor(yv), timeout=120,
                               tolerate_empty_val=True)
-        desc = dict(kind='fit', i=i, n=n, L=Lm, f=f, quota=quota, method=method, data=kind, d=d, task=task, n_trees=n_trees, seed=ck.seed)
+        desc = dict(kind='fit', i=i, n=n, L=Lm, f=f, quota=quota, method=method, data=kind, d=d, task=task, n_trees=n_trees, tree_iters=tree_iters, seed=ck.seed)
         if rec.error is None and any(r.rec_empty_val for r in rec.rfms):
             ck.count('fits with a leaf whose validation set was empty (leaf scored on its own rows by the harness)')
         ck.count(f'method={method}'); ck.count(f'data={kind}'); ck.count(f'f={f}'); ck.count(f'quota={quota}')
@@ -187,8 +189,11 @@ def run(ck):
                          key=json.dumps(dict(site='fit', error=rec.error[0], method=method, data=kind)))
             continue
         ck.count(f'n_trees={n_trees}')
-        if len(rec.trees) != n_trees and not (rec.trees and rec.trees[-1]['kind'] == 'leaf'):
-            ck.violation(f'{len(rec.trees)} trees built, {n_trees} requested, on {desc}', dict(desc), key='tree-count')
+        ck.count(f'tree_iters={tree_iters}')
+        if len(rec.trees) != n_trees * (1 + tree_iters) and not (rec.trees and rec.trees[-1]['kind'] == 'leaf'):
+            ck.violation(f'{len(rec.trees)} trees built, {n_trees} x (1 + {tree_iters} iterations) requested, on {desc}', dict(desc), key='tree-count')
+        if len(model.trees) != min(n_trees, len(rec.trees) // (1 + tree_iters)) and not (rec.trees and rec.trees[-1]['kind'] == 'leaf'):
+            ck.violation(f'{len(model.trees)} trees held, {n_trees} requested, on {desc}', dict(desc), key='tree-held')
         for ti, troot in enumerate(rec.trees):
             sh = xr.shape_of(troot)
             info = dict(depths=[], splits=0)
